@@ -222,6 +222,10 @@ def compiled_vs(cols, exp, text, pred, rules=None, flags=None, ordered=False,
         bucket = 'rows_differ'
         if quirk_prog is not None:
             q = attribute_to_quirks(quirk_prog, pred, rows, ordered)
+            if q == ('?',):
+                # under a recorded engine deviation the reference has no definite value
+                # (membership among nulls ...): neither "explained" nor "unexplained"
+                return 'inconclusive', 'quirk_attribution_ambiguous', ''
             if q:
                 bucket = 'rows_differ:quirk:' + '+'.join(q)
         return 'fail', bucket, '%s\nexpected %r\nactual   %r\n--- predicate %s\n%s' % (
@@ -245,16 +249,20 @@ def attribute_to_quirks(prog, pred, rows, ordered):
     """Smallest set of recorded engine deviations (ref.QUIRKS) under which the
     reference reproduces the actual rows; () if none does."""
     import itertools
+    ambiguous = False
     for n in range(1, len(ref.QUIRKS) + 1):
         for q in itertools.combinations(ref.QUIRKS, n):
             try:
                 ev = ref.Evaluator(prog, budget=150000, quirks=q)
                 cols, exp = expected_rows(ev, prog, pred)
+            except ref.Ambiguous:
+                ambiguous = True
+                continue
             except Exception:
                 continue
             if canon.rows_match(exp, rows, ordered=ordered) is None:
                 return q
-    return ()
+    return ('?',) if ambiguous else ()
 
 
 def first_line(e):
